@@ -92,6 +92,10 @@ structure Faults where
   read : List Path := []
   /-- original paths whose `WriteReader` fails in this phase; `some k` = after `k` bytes were staged -/
   write : List (Path × Option Nat) := []
+  /-- `metadata/arc.db`: the copy into the backup fails (backup) / reading it back fails (restore) -/
+  sqlite : Bool := false
+  /-- `config/arc.toml`: likewise -/
+  config : Bool := false
 
 inductive Outcome
   | ok
@@ -105,6 +109,83 @@ def Faults.outcome (f : Faults) (p : Path) : Outcome :=
     | none => .ok
 
 def noFaults : Faults := {}
+
+/-! ## the step program of `RestoreBackup` (generated from the source) -/
+
+inductive StepKind | data | sqlite | config
+deriving DecidableEq, Repr
+
+/-- what `RestoreBackup` does with the error a step returns -/
+inductive StepMode
+  /-- `if err := step(); err != nil { status = failed; return err }` -/
+  | failNow
+  /-- `err = step()` into the shared variable — a later success OVERWRITES an earlier failure -/
+  | assign
+  /-- the first error is kept in the shared variable -/
+  | accumulate
+  /-- the error is dropped -/
+  | ignore
+deriving DecidableEq, Repr
+
+inductive Instr
+  | step (k : StepKind) (m : StepMode)
+  /-- `if err != nil { status = failed; return err }` on the shared variable -/
+  | check
+deriving DecidableEq, Repr
+
+structure ProgSt where
+  pending : Option StepKind := none
+  failed : Option StepKind := none
+  dataRan : Bool := false
+  sqliteOk : Bool := false
+  configOk : Bool := false
+deriving DecidableEq, Repr
+
+def ProgSt.mark (st : ProgSt) (k : StepKind) (bad : Bool) : ProgSt :=
+  match k with
+  | .data => { st with dataRan := true }
+  | .sqlite => { st with sqliteOk := !bad }
+  | .config => { st with configOk := !bad }
+
+/-- run the step program: `en k` = step `k` is requested and present in the backup, `bad k` = it fails.
+`failed = none` at the end means `progress.Status = "completed"`. -/
+def runProg (en bad : StepKind → Bool) : List Instr → ProgSt → ProgSt
+  | [], st => st
+  | .check :: r, st =>
+    match st.pending with
+    | some k => { st with failed := some k }
+    | none => runProg en bad r st
+  | .step k m :: r, st =>
+    if en k then
+      match m with
+      | .failNow => if bad k then { st.mark k true with failed := some k } else runProg en bad r (st.mark k false)
+      | .assign => runProg en bad r { st.mark k (bad k) with pending := if bad k then some k else none }
+      | .accumulate =>
+        runProg en bad r { st.mark k (bad k) with
+          pending := match st.pending with
+            | some j => some j
+            | none => if bad k then some k else none }
+      | .ignore => runProg en bad r (st.mark k (bad k))
+    else runProg en bad r st
+
+def mkFn (d s c : Bool) : StepKind → Bool
+  | .data => d
+  | .sqlite => s
+  | .config => c
+
+def bools : List Bool := [false, true]
+
+/-- decidable well-behavedness of a step program, over every combination of requested steps and step
+outcomes (data step requested): (honest) it ends `completed` only if the data step ran and did not
+fail; (live) if no step fails it ends `completed`, having run the data step. -/
+def comboOk (prog : List Instr) (es ec bd bs bc : Bool) : Bool :=
+  let st := runProg (mkFn true es ec) (mkFn bd bs bc) prog {}
+  (!(st.failed == none) || (st.dataRan && !bd)) &&
+  (bd || bs || bc || (st.failed == none && st.dataRan))
+
+def progOk (prog : List Instr) : Bool :=
+  bools.all fun es => bools.all fun ec => bools.all fun bd => bools.all fun bs => bools.all fun bc =>
+    comboOk prog es ec bd bs bc
 
 /-! ## error policy (generated from the source) -/
 
@@ -135,6 +216,8 @@ structure Policy where
   ratioChecked : Bool
   /-- `manifest.SkippedFiles = progress.SkippedFiles` is assigned before the manifest is marshalled -/
   manifestSkipped : Bool
+  /-- the steps of `RestoreBackup` after the manifest was read, in source order -/
+  restoreProg : List Instr
 deriving DecidableEq, Repr
 
 /-! ## the per-file loop -/
@@ -209,6 +292,9 @@ structure Manifest where
   skipped : Nat
   dbs : Nat
   meas : Nat
+  /-- `has_metadata` / `has_config`: the SQLite database / arc.toml are in the backup -/
+  hasMetadata : Bool := false
+  hasConfig : Bool := false
 deriving Repr, DecidableEq
 
 inductive BStatus | completed | failedCopy | failedRatio | failedManifest
@@ -282,5 +368,62 @@ def restoreItems (pol : Policy) (f : Faults) (manifest : Option Manifest) (items
 /-- restore of backup `bk`, listing its data directory in `WalkDir` order. -/
 def restore (pol : Policy) (f : Faults) (bk : Backup) (d0 : Tree) : Restored :=
   restoreItems pol f bk.manifest (walkSort bk.store) d0
+
+/-! ## whole operations: options, SQLite metadata and arc.toml -/
+
+structure BOpts where
+  metadata : Bool := false
+  config : Bool := false
+
+/-- `CreateBackup(opts)`: the data part is `backup`; the SQLite / config copies run after the skip-ratio
+check, are NON-fatal, and only set `has_metadata` / `has_config` in the manifest. -/
+def backupFull (pol : Policy) (o : BOpts) (f : Faults) (t : Tree) : Backup :=
+  let bk := backup pol f t
+  { bk with manifest := bk.manifest.map fun m =>
+      { m with hasMetadata := o.metadata && !f.sqlite, hasConfig := o.config && !f.config } }
+
+structure ROpts where
+  data : Bool := true
+  metadata : Bool := false
+  config : Bool := false
+
+inductive FStatus | completed | failedNoManifest | failedData | failedSqlite | failedConfig
+deriving DecidableEq, Repr
+
+structure RestoredFull where
+  status : FStatus
+  data : Tree
+  processed : Nat
+  pbytes : Nat
+  total : Nat
+  tbytes : Nat
+  sqliteRestored : Bool
+  configRestored : Bool
+
+/-- `RestoreBackup(opts)`: manifest, then the step program. -/
+def restoreBackup (pol : Policy) (o : ROpts) (f : Faults) (bk : Backup) (d0 : Tree) : RestoredFull :=
+  match bk.manifest with
+  | none => { status := .failedNoManifest, data := d0, processed := 0, pbytes := 0, total := 0, tbytes := 0,
+              sqliteRestored := false, configRestored := false }
+  | some m =>
+    if f.manifest then
+      { status := .failedNoManifest, data := d0, processed := 0, pbytes := 0, total := 0, tbytes := 0,
+        sqliteRestored := false, configRestored := false }
+    else
+      let dr := restore pol f bk d0
+      let en := mkFn o.data (o.metadata && m.hasMetadata) (o.config && m.hasConfig)
+      let bad := mkFn (dr.status != .completed) f.sqlite f.config
+      let st := runProg en bad pol.restoreProg {}
+      { status := match st.failed with
+          | none => .completed
+          | some .data => .failedData
+          | some .sqlite => .failedSqlite
+          | some .config => .failedConfig,
+        data := if st.dataRan then dr.data else d0,
+        processed := if st.dataRan then dr.processed else 0,
+        pbytes := if st.dataRan then dr.pbytes else 0,
+        total := if st.dataRan then dr.total else 0,
+        tbytes := if st.dataRan then dr.tbytes else 0,
+        sqliteRestored := st.sqliteOk, configRestored := st.configOk }
 
 end Arc.C13
